@@ -2,7 +2,9 @@ package packet
 
 import (
 	"bytes"
+	"encoding/json"
 
+	"go.minekube.com/gate/pkg/edition/java/proto/packet/chat"
 	"go.minekube.com/gate/pkg/gate/proto"
 	zz "go.minekube.com/gate/pkg/internal/zzverif"
 )
@@ -75,4 +77,43 @@ func VerifMutant_RoundTrip() {
 	var a bytes.Buffer
 	_ = s.Encode(c, &a)
 	zz.Assert(a.Len() == 1, "control: thresholds above 127 need more than one byte")
+}
+
+// Tab-complete response: transaction, range and a list of offers each with an optional tooltip (1.13+);
+// a plain list of strings before. Every offer keeps its own text and its own tooltip-or-none.
+func VerifHarness_TabCompleteResponse() {
+	zz.MaxLen(3)
+	// tooltips are JSON text components below 1.20.3; normalising the JSON is not the subject
+	zz.Replace("go.minekube.com/gate/pkg/edition/java/proto/packet/chat.componentObjectJSON", func(j json.RawMessage) (json.RawMessage, error) { return j, nil })
+	p4 := zz.Int32()
+	zz.Assume(p4 >= 4 && p4 < 765) // tooltips are NBT from 1.20.3 (outside the claim)
+	c := &proto.PacketContext{Direction: proto.ClientBound, Protocol: proto.Protocol(p4)}
+	t := &TabCompleteResponse{TransactionID: int(zz.Int32()), Start: int(zz.Int32()), Length: int(zz.Int32())}
+	n := zz.Choose(3)
+	if zz.Thorough() {
+		n = zz.Choose(4)
+	}
+	for i := 0; i < n; i++ {
+		o := TabCompleteOffer{Text: "o" + zzStr4(1)}
+		if zz.Bool() {
+			o.Tooltip = &chat.ComponentHolder{Protocol: c.Protocol, JSON: json.RawMessage(`{"text":"t` + string([]byte{'0' + byte(i)}) + `"}`)}
+		}
+		t.Offers = append(t.Offers, o)
+	}
+	var back TabCompleteResponse
+	zzRoundTrip4(t, &back, c)
+	zz.Assert(len(back.Offers) == n, "the number of offers changed in the round trip")
+	for i, o := range t.Offers {
+		b := back.Offers[i]
+		zz.Assert(b.Text == o.Text, "an offer's text changed in the round trip")
+		if p4 >= 393 {
+			zz.Assert((b.Tooltip != nil) == (o.Tooltip != nil), "an offer without a tooltip came back with one (or the reverse)")
+			if o.Tooltip != nil {
+				zz.Assert(string(b.Tooltip.JSON) == string(o.Tooltip.JSON), "an offer's tooltip changed in the round trip")
+			}
+		} else {
+			zz.Assert(b.Tooltip == nil, "a pre-1.13 offer came back with a tooltip")
+		}
+	}
+	zz.Reach("tab-complete-response")
 }
